@@ -549,9 +549,10 @@ theorem GBTiles.ctorArg_eq_mk' (g : AnyBox) (ty tx : Int) (t : Bool) (y x : List
       simp [XYv.ints?, PyNum.isInt]
     simp only [Tiles.ctor, h1', hs, hi, h6']
   simp only [GBTiles.ctorArg, roiTilesArg, h2, Option.map_some, GBTiles.mk', roiTiles]
+  rfl
 
-/-- `GeoboxTiles(box, None, _tiles=T)` stores `T` unchecked: the tiling need not be a tiling
-of the box (witness: a 3x3 tiling over a 10x10 box) -/
+/-- `GeoboxTiles(box, None, _tiles=T)` stores `T` unchecked — the check the fix added looks at
+`how` only: the tiling need not be a tiling of the box (witness: a 3x3 tiling over a 10x10 box) -/
 theorem GBTiles.ctorArg_tiles_unchecked_cex :
     ∃ (g : GBox) (t : Tiles) (r : GBTiles), GBTiles.ctorArg (.lin g) none (some (.reg t)) = some (.ok r) ∧
       r.tiles = .reg t ∧ (t.baseY ≠ g.ny ∨ t.baseX ≠ g.nx) :=
